@@ -246,13 +246,43 @@ class FragmentTask(Task):
                     yield from blocks(s)
             for it in getattr(node, "items", []) or []:
                 pass
+        MUT = {"append", "extend", "insert", "update", "add", "setdefault"}
+
+        def filled_after(b, i1):
+            """`x = []` (or {} / list() / dict()) as the closing statement only STARTS the definition of x: the statements
+            right after it that fill x (x.append(...) / x[k] = ... inside loops) belong to the fragment, so that
+            `x = [f(i) for i in r]` and its append-loop spelling select the same code"""
+            st = b[i1]
+            if not (isinstance(st, ast.Assign) and len(st.targets) == 1 and isinstance(st.targets[0], ast.Name)):
+                return i1
+            v = st.value
+            empty = (isinstance(v, (ast.List, ast.Dict)) and not (getattr(v, "elts", None) or getattr(v, "keys", None))) or \
+                (isinstance(v, ast.Call) and isinstance(v.func, ast.Name) and v.func.id in ("list", "dict") and not v.args)
+            if not empty:
+                return i1
+            x = st.targets[0].id
+            j = i1
+            while j + 1 < len(b):
+                nxt = b[j + 1]
+                fills = False
+                for n in ast.walk(nxt):
+                    if isinstance(n, ast.Call) and isinstance(n.func, ast.Attribute) and n.func.attr in MUT and \
+                            isinstance(n.func.value, ast.Name) and n.func.value.id == x:
+                        fills = True
+                    if isinstance(n, ast.Assign) and any(isinstance(t, ast.Subscript) and isinstance(t.value, ast.Name) and
+                                                         t.value.id == x for t in n.targets):
+                        fills = True
+                if not fills or not isinstance(nxt, (ast.For, ast.While, ast.Expr, ast.If, ast.Assign)):
+                    break
+                j += 1
+            return j
         for b in blocks(fdef):
             idx = [i for i, s in enumerate(b) if self.first(s)]
             if idx:
                 i0 = idx[0]
                 i1s = [i for i, s in enumerate(b) if i >= i0 and self.last(s)]
                 if i1s:
-                    return b[i0:i1s[-1] + 1]
+                    return b[i0:filled_after(b, i1s[-1]) + 1]
                 if getattr(self, "unordered", False):
                     # the two anchor statements in the other order (a reordering of the statements is still the fragment)
                     j = [i for i, s in enumerate(b) if self.last(s)]
